@@ -104,10 +104,13 @@ def make_and_run(prop, unit, ob, src=None):
         json.dump(data, f, indent=1, default=str)
     rc, out = run_subprocess(path)
     data['replay_output'] = out[-4000:]
-    data['reproduced'] = (rc == 1)
+    # reproduced only on the explicit verdict line of a replay that ran to its end (a crash of the replay
+    # itself also exits non-zero and is never taken for a reproduction)
+    ok = (rc == 1 and out.rstrip().endswith('REPRODUCED') and not out.rstrip().endswith('NOT-REPRODUCED'))
+    data['reproduced'] = ok
     with open(path, 'w') as f:
         json.dump(data, f, indent=1, default=str)
-    if rc == 1:
+    if ok:
         return path, True
     if ob['status'] == 'failed':
         return path, False
@@ -148,7 +151,7 @@ def run_file(path):
         sys.path.insert(0, os.path.join(ROOT, 'harness'))
         import tcpcl_replay
         ok, msg = tcpcl_replay.replay(data)
-    elif suite == 'bp':
+    elif suite == 'bp' and os.path.exists(os.path.join(ROOT, 'harness', 'bp_replay.py')):
         sys.path.insert(0, os.path.join(ROOT, 'harness'))
         import bp_replay
         ok, msg = bp_replay.replay(data)
